@@ -303,7 +303,7 @@ class Binary:
                 fh.write(text)
         self.exe = os.path.join(self.tmp, 'a.out')
         if self.mode == 'sched':
-            flags = ['-std=c++17', self.opt, '-g0', '-I', SCHED_MOCK, '-I', lab.MOCK_DIR, '-I', lab.CXX_DIR, '-I', self.tmp]
+            flags = ['-std=c++17'] + self.opt.split() + ['-g0', '-I', SCHED_MOCK, '-I', lab.MOCK_DIR, '-I', lab.CXX_DIR, '-I', self.tmp]
             tail = ['-ldl', '-pthread']
         else:   # free-running ThreadSanitizer build
             flags = ['-std=c++17', '-O1', '-g', '-fsanitize=thread', '-DVF_FREE_RUN', '-I', THR_MOCK, '-I', lab.MOCK_DIR,
